@@ -333,6 +333,9 @@ public:
         int BlockSize;
         int max_iter = std::min(m_n, maxit);
 
+        // The status describes this call: it must not keep the Success of an earlier compute()
+        m_info = Eigen::NoConvergence;
+
         SparseMatrix directions, AX, AR, BX, AD, ADD, DD, BDD, BD, XAD, RAD, DAD, XBD, RBD, BR, sparse_eVecX, sparse_eVecR, sparse_eVecD, inverse_matrix;
         Matrix XAR, RAR, XBR, gramA, gramB, eVecX, eVecR, eVecD;
         std::vector<int> columnsToDelete;
